@@ -130,7 +130,8 @@ def dense(t, tcase=None, order=None):
 
 
 def dense_operator(ttno, order=None):
-    """dense matrix of a TTNO contracted here: node tensors have axes [children..., up physical..., down physical..., parent]."""
+    """dense matrix of a TTNO contracted here.  Node tensors have axes [children bonds..., (up_0, down_0, up_1, down_1, ...), parent bond]
+    (symbolic_mo_to_numeric_mo_general)."""
     def rec(node):
         t = np.asarray(node.tensor)
         sets = list(ttno.tn2bn[node].basis_sets)
@@ -141,22 +142,14 @@ def dense_operator(ttno, order=None):
             res = np.tensordot(res, arr, axes=([0], [arr.ndim - 1]))
             sub_order += sub
         ns = len(sets)
-        # res axes: [up (ns), down (ns), parent, child stuff...] ; child stuff comes as (up.., down..) per child already interleaved as pairs
+        # res axes: [own pairs (2 ns), parent, child pairs...] -> [own pairs, child pairs..., parent]
         perm = list(range(2 * ns)) + list(range(2 * ns + 1, res.ndim)) + [2 * ns]
         res = res.transpose(perm)
-        # reorganise own axes as pairs (up_i, down_i)
-        own = []
-        for i in range(ns):
-            own += [i, ns + i]
-        rest = list(range(2 * ns, res.ndim))
-        res = res.transpose(own + rest)
         return res, sets + sub_order
     arr, sets = rec(ttno.root)
     arr = arr[..., 0]
     if order is None:
         order = [b for b in ttno.basis.basis_list if b.__class__.__name__ != "BasisDummy"]
-    # axes: (up0, down0, up1, down1, ...)
-    n = len(sets)
     ups = [2 * sets.index(b) for b in order]
     downs = [2 * sets.index(b) + 1 for b in order]
     dummy_axes = [a for i, b in enumerate(sets) if b not in order for a in (2 * i, 2 * i + 1)]
